@@ -3,7 +3,11 @@
 Engine A.  (1) SOCKS5 UDP framing lemma with symbolic port / payload / header bytes;  (2) routing: all schedules of
 <=2 (quick) / 3 (thorough) datagrams with symbolic source, kind and packet id through the real
 UDPProxyProtocol.datagram_received -> InterceptingLLUDPProxyProtocol.handle_proxied_packet with the real byte codec,
-a real SOCKS5UDPTransport on a recording socket, two regions (one with an open circuit, one without), no addons.
+a real SOCKS5UDPTransport on a recording socket, two regions (one with an open circuit, one without), no addons;
+(3) circuit lifecycle: all schedules of 3 events (and of 4 events after an initial UseCircuitCode; thorough: all of 4)
+over {viewer UseCircuitCode, DisableSimulator from the simulator, viewer CloseCircuit, region.mark_dead(), viewer chat,
+simulator chat} on the second region through the same stack, against an independent model of the circuit being
+absent / open / marked dead.
 """
 import struct
 
@@ -160,7 +164,7 @@ def fresh():
     return sock
 
 
-def check_delivery(dest, msg, new, outgoing, pid):
+def check_delivery(dest, msg, new, outgoing, pid, sim=px.SIM):
     if dest is None:
         return not new
     if len(new) != 1 or new[0][1] != dest:
@@ -169,7 +173,7 @@ def check_delivery(dest, msg, new, outgoing, pid):
     if not outgoing:
         # towards the viewer: wrapped with the simulator's address
         parsed = UDPProxyProtocol(px.CLIENT)._parse_socks_datagram(data)
-        if parsed is None or parsed[0] != px.SIM:
+        if parsed is None or parsed[0] != sim:
             return False
         data = bytes(parsed[1])
     deser = UDPMessageDeserializer()
@@ -208,11 +212,153 @@ def routing2(s0: int, k0: int, p0: int, s1: int, k1: int, p1: int) -> bool:
 
 shard(routing2, "s0", range(NS), ["viewer_simA", "simA", "viewer_simB", "stranger"], globals())
 
+
+# ------------------------------------------------------------------------------------------------ circuit lifecycle
+# The second region's circuit is opened, shut down and re-opened by traffic.  What the repo documents (comments in
+# handle_proxied_packet / Session.open_circuit, region_by_circuit_addr, BaseClientRegion.mark_dead):
+#   * a viewer UseCircuitCode for a registered simulator address "will create a circuit, replace a circuit, or do nothing
+#     if circuit is already alive" - and is then forwarded like any other datagram;
+#   * CloseCircuit / DisableSimulator passing through mark the region dead (the circuit object stays, is_alive False);
+#   * without a circuit object: "No circuit for %r, dropping packet!".
+# The repo says nothing about ordinary traffic on a circuit that was marked dead (it keeps forwarding it: the viewer's
+# CloseCircuit answer to DisableSimulator has to get through), and C06 only speaks about open and unknown circuits, so in
+# that state the model only demands at-most-once, right peer, intact.
+EV = ["viewer UseCircuitCode->simB", "simB DisableSimulator->viewer", "viewer CloseCircuit->simB", "region.mark_dead()",
+      "viewer chat->simB", "simB chat->viewer"]
+NE = len(EV)
+NONE, ALIVE, DEAD = 0, 1, 2
+
+
+def lifecycle_message(ev, pid):
+    if ev == 0:
+        return Message("UseCircuitCode", Block("CircuitCode", Code=1234, SessionID=U[0], ID=U[1]), packet_id=pid,
+                       direction=Direction.OUT)
+    if ev == 1:
+        return Message("DisableSimulator", packet_id=pid, direction=Direction.IN)
+    if ev == 2:
+        return Message("CloseCircuit", packet_id=pid, direction=Direction.OUT)
+    return make_datagram(0, ev == 4, pid)[0]
+
+
+def push(sock, msg, outgoing, sim):
+    """one well-formed datagram between the viewer and `sim` through the real UDP association; returns the new sends"""
+    before = len(sock.sent)
+    body = SER.serialize(msg)
+    if outgoing:
+        data = struct.pack("!HBB4sH", 0, 0, 1, bytes(int(x) for x in sim[0].split(".")), sim[1]) + body
+        source = px.CLIENT
+    else:
+        data, source = body, sim
+    try:
+        px.PROTO.datagram_received(data, source)
+    except Exception:
+        pass             # as in deliver(): what matters is what was (not) sent and the state
+    return sock.sent[before:]
+
+
+def run_lifecycle(events):
+    sock = fresh()
+    circuit_a = px.REGION.circuit
+    state = NONE
+    pids = {True: 1, False: 1}           # next packet id per direction (outgoing?)
+    for ev in events:
+        old = REGION_B.circuit
+        if ev == 3:
+            before = len(sock.sent)
+            REGION_B.mark_dead()
+            if len(sock.sent) != before:
+                return False
+            if state == ALIVE:
+                state = DEAD
+        else:
+            outgoing = ev in (0, 2, 4)
+            pid = pids[outgoing]
+            pids[outgoing] = pid + 1
+            msg = lifecycle_message(ev, pid)
+            new = push(sock, msg, outgoing, SIM_B)
+            dest = SIM_B if outgoing else px.CLIENT
+            if ev == 0:
+                # always reaches the simulator; afterwards the circuit is open: untouched if it was alive, else a new one
+                if not check_delivery(dest, msg, new, outgoing, pid, SIM_B):
+                    return False
+                now = REGION_B.circuit
+                if now is None or (now is old) != (state == ALIVE):
+                    return False
+                if now.near_host != px.CLIENT or now.host != SIM_B:
+                    return False
+                state = ALIVE
+            elif state == NONE:
+                if new:
+                    return False
+            elif state == ALIVE:
+                if not check_delivery(dest, msg, new, outgoing, pid, SIM_B):
+                    return False
+                if ev in (1, 2):
+                    state = DEAD
+            else:
+                if new and not check_delivery(dest, msg, new, outgoing, pid, SIM_B):
+                    return False
+        # the session's view of the region follows the model
+        if (REGION_B.circuit is None) != (state == NONE) or bool(REGION_B.is_alive) != (state == ALIVE):
+            return False
+        if px.REGION.circuit is not circuit_a or not circuit_a.is_alive:
+            return False
+    # the other region's traffic is undisturbed, both ways
+    for outgoing in (True, False):
+        msg = make_datagram(0, outgoing, 900)[0]
+        new = push(sock, msg, outgoing, px.SIM)
+        if not check_delivery(px.SIM if outgoing else px.CLIENT, msg, new, outgoing, 900):
+            return False
+    return True
+
+
+_LIFE_NOTE = ("circuit lifecycle of the second region through the real UDP association and byte codec, events from {viewer "
+              "UseCircuitCode, DisableSimulator from the simulator, viewer CloseCircuit, region.mark_dead(), viewer chat, "
+              "simulator chat}, against an independent three-state model (no circuit / open / marked dead): UseCircuitCode "
+              "always reaches the simulator exactly once and leaves an open circuit (the same object if it was alive, a fresh "
+              "one if there was none or it was marked dead); with no circuit nothing is sent; on an open circuit every "
+              "datagram reaches the right peer exactly once intact (inbound wrapped with the simulator's address); on a "
+              "circuit marked dead at most once, right peer, intact (the repo documents nothing more for that state); "
+              "region.circuit / is_alive follow the model after every event; the first region's circuit is untouched and "
+              "still carries one datagram each way afterwards")
+
+
+_LABELS = ["ucc", "disable", "close", "markdead", "vchat", "schat"]
+
+
+@harness(pre=["0 <= e0 < NE", "0 <= e1 < NE", "0 <= e2 < NE"], post="_", timeout=200,
+         note="ALL schedules of 3 events: " + _LIFE_NOTE, covers=COVERS)
+def lifecycle3(e0: int, e1: int, e2: int) -> bool:
+    return run_lifecycle([small(e0, 0, NE - 1), small(e1, 0, NE - 1), small(e2, 0, NE - 1)])
+
+
+@harness(pre=["0 <= e1 < NE", "0 <= e2 < NE", "0 <= e3 < NE"], post="_", timeout=200,
+         note="ALL schedules of 4 events that start with the viewer's UseCircuitCode (open, then any 3 events: shut down / "
+              "re-open / use): " + _LIFE_NOTE, covers=COVERS)
+def reopen4(e1: int, e2: int, e3: int) -> bool:
+    return run_lifecycle([0, small(e1, 0, NE - 1), small(e2, 0, NE - 1), small(e3, 0, NE - 1)])
+
+
+@harness(pre=["1 <= e0 < NE", "0 <= e1 < NE", "0 <= e2 < NE", "0 <= e3 < NE"], post="_", timeout=600, tiers=("thorough",),
+         note="ALL schedules of 4 events whose first event is not UseCircuitCode (thorough tier; reopen4 has the others): "
+              + _LIFE_NOTE, covers=COVERS)
+def lifecycle4(e0: int, e1: int, e2: int, e3: int) -> bool:
+    return run_lifecycle([small(e0, 1, NE - 1), small(e1, 0, NE - 1), small(e2, 0, NE - 1), small(e3, 0, NE - 1)])
+
+
+shard(lifecycle3, "e0", range(NE), [f"first_{x}" for x in _LABELS], globals())
+shard(reopen4, "e1", range(NE), [f"then_{x}" for x in _LABELS], globals())
+shard(lifecycle4, "e0", range(1, NE), [f"first_{x}" for x in _LABELS[1:]], globals())
+
 EVIDENCE = {
     "bounds": "framing: any port, payload <= 4 bytes, any 4 header bytes + tail <= 8; routing: schedules of 2 datagrams over 4 "
-              "sources x 6 kinds, two packet-id pairs, one session, two regions",
-    "outside": "message content is a concrete catalogue (C01 covers the codec); IPv6; pre-session claiming via UseCircuitCode "
-               "(covered by the repo's own integration tests); longer schedules",
+              "sources x 6 kinds, two packet-id pairs, one session, two regions; circuit lifecycle: schedules of 3 events, and "
+              "of 4 events starting with UseCircuitCode (thorough: all schedules of 4), over 6 event kinds on the second "
+              "region, then one datagram each way on the first region",
+    "outside": "message content is a concrete catalogue (C01 covers the codec); IPv6; claiming a pending session via the first "
+               "UseCircuitCode (covered by the repo's own integration tests; here the session is already claimed); longer "
+               "schedules; whether ordinary traffic on a circuit that was marked dead is forwarded (the repo forwards it and "
+               "documents nothing; the model only demands at most once, right peer, intact there)",
     "assumptions": ["exceptions escaping datagram_received are logged by asyncio and count as 'discarded' provided nothing was "
                     "sent and the state oracle holds"],
 }
